@@ -5,9 +5,9 @@ package main
 // C07: claim and XR exchange exactly the fields each side owns.
 //
 // Drives the REAL claim.ServerSideCompositeSyncer.Sync and
-// claim.ClientSideCompositeSyncer.Sync (and, at the CSA->SSA migration point, the
-// real PatchingManagedFieldsUpgrader) over simstore on generated histories
-//   sync | editClaim | xrCtl | upgrade
+// claim.ClientSideCompositeSyncer.Sync (and the real PatchingManagedFieldsUpgrader)
+// over simstore on generated histories
+//   sync | editClaim | xrCtl | upgrade | upgradeProbe
 // starting from a generated claim (pruned with apiextensions-apiserver's
 // structural pruning against the CRD xcrd.ForCompositeResourceClaim derives from
 // a generated XRD) and an optional pre-existing XR.
@@ -15,20 +15,30 @@ package main
 // The syncers (and the managed-fields upgrader) are long-lived objects of the
 // claim controller of one XRD: they serve EVERY claim of that XRD for the life
 // of the process. A scenario therefore is a main claim/XR pair plus any number
-// of peer pairs (other claims of the same XRD, in the same store, each with its
-// own history), whose operations are interleaved by `sched` and ALL run through
-// ONE ServerSideCompositeSyncer, ONE ClientSideCompositeSyncer and ONE
+// of peer pairs (other claims of the same XRD - possibly of the same NAME in
+// another namespace - in the same store, each with its own history), whose
+// operations are interleaved by `sched` and ALL run through ONE
+// ServerSideCompositeSyncer, ONE ClientSideCompositeSyncer and ONE
 // PatchingManagedFieldsUpgrader built once per scenario. The model is a pure
 // function of each pair alone (Drv/C07.lean runs every pair independently), so
 // anything a syncer carries over from one sync to the next - of the same or of
 // another claim - shows up as a correspondence diff and in the per-sync monitors.
 //
-// Observation (diffed against the Lean model Xp.C07): for every sync step the
-// ordered request bodies of every write the syncer issued, the error class it
-// returned and the stored claim and XR afterwards, all projected to
-// {name, labels, annotations, spec, status}.
+// Every sync runs in a WORLD (c07_world.go): the reconciler's two cached reads may
+// lag behind the store or miss the XR, third parties write between the API calls
+// of the sync, any API call may fail with any error class. The model
+// (Xp/Model/C07World.lean) is the same sequence of resource-version-checked API
+// calls in the same world.
 //
-// Direct monitors (c07_mon.go) evaluate the field partition itself on the real run.
+// Observation (diffed against the Lean model Xp.C07): for every sync step the
+// ordered request bodies of every write the syncer issued, the number of API
+// calls it made, the error class it returned and the stored claim and XR
+// afterwards, all projected to {name, labels, annotations, spec, status}.
+//
+// Direct monitors evaluate the field partition itself on the real run: c07_mon.go
+// on every request body (against the objects as served) and on the stored objects
+// across quiet syncs, c07_world.go on every single API call against the true
+// store around it.
 
 import (
 	"context"
@@ -41,7 +51,6 @@ import (
 	"k8s.io/apimachinery/pkg/runtime"
 	"k8s.io/apimachinery/pkg/runtime/schema"
 	"k8s.io/apimachinery/pkg/types"
-	"sigs.k8s.io/controller-runtime/pkg/client"
 
 	"github.com/crossplane/crossplane-runtime/pkg/meta"
 	"github.com/crossplane/crossplane-runtime/pkg/resource"
@@ -90,6 +99,22 @@ type c07Op struct {
 	DelLabels []string          `json:"delLabels"`
 	SetAnn    map[string]string `json:"setAnn"`
 	DelAnn    []string          `json:"delAnn"`
+
+	// ---- the world of one sync (c07_world.go); all absent = the quiet world.
+	// How the reconciler's two cached reads are answered: the claim / the XR as they
+	// were LagCm / LagXr operations of this pair ago; MissXr: the XR is not in the cache.
+	LagCm  int  `json:"lagCm,omitempty"`
+	LagXr  int  `json:"lagXr,omitempty"`
+	MissXr bool `json:"missXr,omitempty"`
+	// GetCache: the Get inside the client-side Apply is answered by that same cache
+	// state (default: by the live store).
+	GetCache bool `json:"getCache,omitempty"`
+	// Acts: third-party writes before the K-th API call of this sync (upgrade: of the upgrade).
+	Acts []c07Act `json:"acts,omitempty"`
+	// Inj: the K-th API call fails with an API error of this class (nothing reaches the store).
+	Inj []c07Inj `json:"inj,omitempty"`
+	// Mf (op upgradeProbe): the managers of the probe object's managedFields, in order.
+	Mf []string `json:"mf,omitempty"`
 }
 
 // c07Scn is what the model is given.
@@ -105,6 +130,8 @@ type c07Scn struct {
 	// runs pair by pair. The model does not read Sched.
 	Peers []c07Peer `json:"peers"`
 	Sched []int     `json:"sched"`
+	// NS: the claim's namespace (default team-a).
+	NS string `json:"ns,omitempty"`
 }
 
 // c07Peer is one more claim/XR pair with its own history.
@@ -112,6 +139,7 @@ type c07Peer struct {
 	Claim c07Obj  `json:"claim"`
 	XR    *c07Obj `json:"xr"`
 	Ops   []c07Op `json:"ops"`
+	NS    string  `json:"ns,omitempty"`
 }
 
 type c07Write struct {
@@ -120,7 +148,9 @@ type c07Write struct {
 }
 
 type c07Step struct {
-	Err    string     `json:"err"`
+	Err string `json:"err"`
+	// Calls: how many API calls the Sync made through its client (reads included).
+	Calls  int        `json:"calls"`
 	Writes []c07Write `json:"writes"`
 	Claim  c07Obj     `json:"claim"`
 	XR     *c07Obj    `json:"xr"`
@@ -183,6 +213,10 @@ func c07ToU(o c07Obj, gvk schema.GroupVersionKind, ns string) *unstructured.Unst
 	md := map[string]any{"name": o.Name}
 	if ns != "" {
 		md["namespace"] = ns
+	} else if i := strings.LastIndex(o.Name, "-"); i > 0 {
+		// every XR of a claim was created by the claim controller with a generateName
+		// derived from the claim's name (a syncer that re-applies a missed XR sends it again)
+		md["generateName"] = o.Name[:i+1]
 	}
 	if len(o.Labels) > 0 {
 		l := map[string]any{}
@@ -208,89 +242,6 @@ func c07ToU(o c07Obj, gvk schema.GroupVersionKind, ns string) *unstructured.Unst
 	return &unstructured.Unstructured{Object: m}
 }
 
-// ---------------------------------------------------------------- recording client
-
-// c07Rec is the ONE client the long-lived syncers of a scenario hold; it records
-// the writes of the sync in progress (reset before every sync).
-type c07Rec struct {
-	*Store
-	writes []c07Write
-}
-
-func c07Kind(obj client.Object) string {
-	if obj.GetObjectKind().GroupVersionKind().Kind == c07ClaimGVK.Kind {
-		return "claim"
-	}
-	return "xr"
-}
-
-func c07Body(obj runtime.Object) c07Obj {
-	b, err := json.Marshal(obj)
-	if err != nil {
-		panic(err)
-	}
-	return c07BodyJSON(b)
-}
-
-func c07BodyJSON(b []byte) c07Obj {
-	var m map[string]any
-	d := json.NewDecoder(strings.NewReader(string(b)))
-	d.UseNumber()
-	if err := d.Decode(&m); err != nil {
-		panic(err)
-	}
-	return c07Proj(convertNumbers(m).(map[string]any))
-}
-
-func (r *c07Rec) Create(ctx context.Context, obj client.Object, opts ...client.CreateOption) error {
-	r.writes = append(r.writes, c07Write{T: c07Kind(obj) + ".create", Body: c07Body(obj)})
-	return r.Store.Create(ctx, obj, opts...)
-}
-
-func (r *c07Rec) Update(ctx context.Context, obj client.Object, opts ...client.UpdateOption) error {
-	r.writes = append(r.writes, c07Write{T: c07Kind(obj) + ".update", Body: c07Body(obj)})
-	return r.Store.Update(ctx, obj, opts...)
-}
-
-func (r *c07Rec) Patch(ctx context.Context, obj client.Object, patch client.Patch, opts ...client.PatchOption) error {
-	data, err := patch.Data(obj)
-	if err != nil {
-		return err
-	}
-	t := "patch"
-	switch patch.Type() {
-	case types.ApplyPatchType:
-		t = "apply"
-	case types.JSONPatchType:
-		t = "jsonpatch"
-	}
-	if t == "jsonpatch" {
-		r.writes = append(r.writes, c07Write{T: c07Kind(obj) + "." + t, Body: c07Obj{Name: obj.GetName(), Labels: map[string]string{}}})
-	} else {
-		r.writes = append(r.writes, c07Write{T: c07Kind(obj) + "." + t, Body: c07BodyJSON(data)})
-	}
-	return r.Store.Patch(ctx, obj, patch, opts...)
-}
-
-func (r *c07Rec) Delete(ctx context.Context, obj client.Object, opts ...client.DeleteOption) error {
-	r.writes = append(r.writes, c07Write{T: c07Kind(obj) + ".delete", Body: c07Body(obj)})
-	return r.Store.Delete(ctx, obj, opts...)
-}
-
-type c07SubRec struct {
-	client.SubResourceWriter
-	rec *c07Rec
-}
-
-func (w c07SubRec) Update(ctx context.Context, obj client.Object, opts ...client.SubResourceUpdateOption) error {
-	w.rec.writes = append(w.rec.writes, c07Write{T: c07Kind(obj) + ".status", Body: c07Body(obj)})
-	return w.SubResourceWriter.Update(ctx, obj, opts...)
-}
-
-func (r *c07Rec) Status() client.SubResourceWriter {
-	return c07SubRec{SubResourceWriter: r.Store.Status(), rec: r}
-}
-
 // ---------------------------------------------------------------- running a history
 
 func c07ErrClass(err error) string {
@@ -307,6 +258,10 @@ func c07ErrClass(err error) string {
 		return "mergeStatus"
 	case strings.Contains(s, "unable to merge claim spec"):
 		return "mergeSpec"
+	}
+	// an API call failed: the class of the error as the reconciler will see it
+	if c := c07APIClass(err); c != "" {
+		return "api:" + c
 	}
 	return "other:" + s
 }
@@ -384,6 +339,7 @@ func c07DropNullSpec(u *unstructured.Unstructured) {
 
 // c07Pre is the state a sync step started from (for the monitors).
 type c07Pre struct {
+	NS    string
 	Claim c07Obj
 	XR    *c07Obj
 }
@@ -425,12 +381,28 @@ func c07NewProc() *c07Proc {
 	return p
 }
 
+// c07Snap is the stored claim and XR (the one the claim references) of a pair after one
+// of its operations: what a lagging informer cache still holds.
+type c07Snap struct {
+	cm *unstructured.Unstructured
+	xr *unstructured.Unstructured
+}
+
 // c07Pair is the run state of one claim/XR pair of a scenario.
 type c07Pair struct {
+	ns    string
 	name  string
 	ops   []c07Op
 	next  int
 	steps []c07Step
+	snaps []c07Snap // snaps[0]: as seeded; snaps[i]: after operation i
+}
+
+func c07NSOf(ns string) string {
+	if ns == "" {
+		return c07NS
+	}
+	return ns
 }
 
 // c07Key tables of internal/xcrd as the syncers see them right now (they are rebuilt
@@ -449,23 +421,30 @@ type c07Info struct {
 	// some syncer object synced an XR under Manual and LATER an XR that is not under
 	// Manual for a claim that has a compositionRevisionRef (the carry-over trigger)
 	ManualThenOther bool
+	// world coverage, measured on the run
+	Acts, Inj, Stale, Probe bool
+	// a call of a sync failed naturally (not injected) with these classes
+	Natural map[string]bool
 }
 
 func c07Run(s c07Scn) (c07Obs, []Mon, c07Info) {
 	p := c07NewProc()
 	st := p.st
-	var info c07Info
-	pairs := []*c07Pair{{name: s.Claim.Name, ops: s.Ops}}
-	st.Seed(c07ToU(s.Claim, c07ClaimGVK, c07NS))
+	info := c07Info{Natural: map[string]bool{}}
+	pairs := []*c07Pair{{ns: c07NSOf(s.NS), name: s.Claim.Name, ops: s.Ops}}
+	st.Seed(c07ToU(s.Claim, c07ClaimGVK, c07NSOf(s.NS)))
 	if s.XR != nil {
 		st.Seed(c07ToU(*s.XR, c07XRGVK, ""))
 	}
 	for _, pe := range s.Peers {
-		pairs = append(pairs, &c07Pair{name: pe.Claim.Name, ops: pe.Ops})
-		st.Seed(c07ToU(pe.Claim, c07ClaimGVK, c07NS))
+		pairs = append(pairs, &c07Pair{ns: c07NSOf(pe.NS), name: pe.Claim.Name, ops: pe.Ops})
+		st.Seed(c07ToU(pe.Claim, c07ClaimGVK, c07NSOf(pe.NS)))
 		if pe.XR != nil {
 			st.Seed(c07ToU(*pe.XR, c07XRGVK, ""))
 		}
+	}
+	for _, pr := range pairs {
+		p.snapshot(pr)
 	}
 	var mons []Mon
 	for _, e := range s.Sched {
@@ -492,6 +471,25 @@ func c07Run(s c07Scn) (c07Obs, []Mon, c07Info) {
 	return obs, mons, info
 }
 
+// snapshot records what the store holds for the pair now.
+func (p *c07Proc) snapshot(pr *c07Pair) {
+	sn := c07Snap{cm: p.st.Peek(c07ClaimGVK.GroupKind(), pr.ns, pr.name)}
+	if sn.cm != nil {
+		if n := c07XRNameOf(c07Proj(sn.cm.Object)); n != "" {
+			sn.xr = p.st.Peek(c07XRGVK.GroupKind(), "", n)
+		}
+	}
+	pr.snaps = append(pr.snaps, sn)
+}
+
+func c07Back(snaps []c07Snap, lag int) c07Snap {
+	i := len(snaps) - 1 - lag
+	if i < 0 {
+		i = 0
+	}
+	return snaps[i]
+}
+
 // runOp runs the next operation of one pair through the long-lived objects.
 func (p *c07Proc) runOp(s c07Scn, pr *c07Pair, info *c07Info) []Mon {
 	op := pr.ops[pr.next]
@@ -499,9 +497,10 @@ func (p *c07Proc) runOp(s c07Scn, pr *c07Pair, info *c07Info) []Mon {
 	st := p.st
 	ctx := context.Background()
 	var mons []Mon
+	defer p.snapshot(pr)
 
 	peekClaim := func() c07Obj {
-		return c07Proj(st.Peek(c07ClaimGVK.GroupKind(), c07NS, pr.name).Object)
+		return c07Proj(st.Peek(c07ClaimGVK.GroupKind(), pr.ns, pr.name).Object)
 	}
 	peekXR := func(name string) *c07Obj {
 		if name == "" {
@@ -517,7 +516,7 @@ func (p *c07Proc) runOp(s c07Scn, pr *c07Pair, info *c07Info) []Mon {
 
 	switch op.Op {
 	case "editClaim":
-		st.Mutate(c07ClaimGVK.GroupKind(), c07NS, pr.name, func(u *unstructured.Unstructured) { c07ApplyDelta(u, op) })
+		st.Mutate(c07ClaimGVK.GroupKind(), pr.ns, pr.name, func(u *unstructured.Unstructured) { c07ApplyDelta(u, op) })
 	case "xrCtl":
 		if n := c07XRNameOf(peekClaim()); n != "" {
 			st.Mutate(c07XRGVK.GroupKind(), "", n, func(u *unstructured.Unstructured) { c07ApplyDelta(u, op) })
@@ -534,37 +533,75 @@ func (p *c07Proc) runOp(s c07Scn, pr *c07Pair, info *c07Info) []Mon {
 		if err := st.Get(ctx, types.NamespacedName{Name: n}, xr); err != nil {
 			return nil
 		}
-		var uerr error
-		if pn := Guard(func() { uerr = p.upg.Upgrade(ctx, xr, claim.FieldOwnerXR) }); pn != "" {
-			mons = append(mons, Mon{Sig: "C07:panic", Why: pn})
-		}
-		if uerr != nil {
-			mons = append(mons, Mon{Sig: "C07:upgrade-error", Why: uerr.Error()})
-		}
+		mons = append(mons, p.upgrade(pr, op, xr)...)
 		after := peekXR(n)
 		if mustJSON(before) != mustJSON(after) {
 			mons = append(mons, Mon{Sig: "C07:upgrade-changed-xr", Why: "managed fields upgrade changed XR data: " + mustJSON(before) + " -> " + mustJSON(after)})
 		}
+	case "upgradeProbe":
+		info.Probe = true
+		mons = append(mons, p.upgradeProbe(pr, op)...)
 	case "sync":
-		pre := c07Pre{Claim: peekClaim(), XR: peekXR(c07XRNameOf(peekClaim()))}
-		others := p.snapshotOthers(pr.name, c07XRNameOf(pre.Claim))
+		pre := c07Pre{NS: pr.ns, Claim: peekClaim(), XR: peekXR(c07XRNameOf(peekClaim()))}
+		others := p.snapshotOthers(pr.ns, pr.name, c07XRNameOf(pre.Claim), op.Gen)
 		tables := c07KeyTables()
-		// what the reconciler does before calling Sync
+		// what the reconciler does before calling Sync: two reads through the cached client
 		cm := uclaim.New(uclaim.WithGroupVersionKind(c07ClaimGVK))
-		if err := st.Get(ctx, types.NamespacedName{Namespace: c07NS, Name: pr.name}, cm); err != nil {
-			panic(err)
-		}
 		xr := ucomposite.New(ucomposite.WithGroupVersionKind(c07XRGVK))
-		if ref := cm.GetResourceReference(); ref != nil {
-			_ = st.Get(ctx, types.NamespacedName{Name: ref.Name}, xr)
+		view := c07View{}
+		var cacheXR *unstructured.Unstructured
+		if op.LagCm == 0 && op.LagXr == 0 && !op.MissXr {
+			if err := st.Get(ctx, types.NamespacedName{Namespace: pr.ns, Name: pr.name}, cm); err != nil {
+				panic(err)
+			}
+			if ref := cm.GetResourceReference(); ref != nil {
+				if err := st.Get(ctx, types.NamespacedName{Name: ref.Name}, xr); err == nil {
+					cacheXR = &unstructured.Unstructured{Object: deepCopyMap(xr.Object)}
+				}
+			}
+		} else {
+			cm.Object = deepCopyMap(c07Back(pr.snaps, op.LagCm).cm.Object)
+			if ref := cm.GetResourceReference(); ref != nil && !op.MissXr {
+				if xs := c07Back(pr.snaps, op.LagXr).xr; xs != nil && xs.GetName() == ref.Name {
+					cacheXR = xs
+					xr.Object = deepCopyMap(xs.Object)
+				}
+			}
 		}
+		view.Claim, view.ClaimRV = c07Proj(cm.Object), cm.GetResourceVersion()
+		if cacheXR != nil {
+			o := c07Proj(cacheXR.Object)
+			view.XR = &o
+		}
+		// stale: some read is not the object the store holds now (same content under an older
+		// resourceVersion is stale too: rv-checked writes will be refused)
+		view.Stale = mustJSON(view.Claim) != mustJSON(pre.Claim) || mustJSON(view.XR) != mustJSON(pre.XR)
+		if u := st.Peek(c07ClaimGVK.GroupKind(), pr.ns, pr.name); u == nil || u.GetResourceVersion() != view.ClaimRV {
+			view.Stale = true
+		}
+		if cacheXR != nil {
+			if u := st.Peek(c07XRGVK.GroupKind(), "", cacheXR.GetName()); u == nil || u.GetResourceVersion() != cacheXR.GetResourceVersion() {
+				view.Stale = true
+			}
+		}
+		// the XR third parties act on: the one the stored claim references, else the one about to be created
+		target := c07XRNameOf(pre.Claim)
+		if target == "" {
+			target = op.Gen
+		}
+		w := c07NewWorld(st, pr.ns, pr.name, target, op)
+		w.cacheXR = cacheXR
+		info.Acts = info.Acts || len(op.Acts) > 0
+		info.Inj = info.Inj || len(op.Inj) > 0
+		info.Stale = info.Stale || view.Stale
 		// coverage bookkeeping (from this sync's inputs and the syncer's past only)
-		if c07Policy(pre.XR) == "Manual" {
+		if c07Policy(view.XR) == "Manual" {
 			p.sawManual[op.Syncer] = true
-		} else if p.sawManual[op.Syncer] && c07Has(c07Map(pre.Claim.Spec), "compositionRevisionRef") {
+		} else if p.sawManual[op.Syncer] && c07Has(c07Map(view.Claim.Spec), "compositionRevisionRef") {
 			info.ManualThenOther = true
 		}
 		p.rec.writes = nil
+		p.rec.w = w
 		p.gen = op.Gen
 		var err error
 		if pn := Guard(func() {
@@ -576,26 +613,34 @@ func (p *c07Proc) runOp(s c07Scn, pr *c07Pair, info *c07Info) []Mon {
 		}); pn != "" {
 			mons = append(mons, Mon{Sig: "C07:panic", Why: pn})
 		}
+		p.rec.w = nil
 		writes := p.rec.writes
 		p.rec.writes = nil
 		if writes == nil {
 			writes = []c07Write{}
+		}
+		for _, c := range w.calls {
+			if c.Err != "" && !c.Injected && !(c.Verb == "get" && c.Err == "notFound") {
+				info.Natural[c.Err] = true
+			}
 		}
 		// The API server prunes null values of non-nullable fields on every write
 		// (apiextensions-apiserver defaulting.PruneNonNullableNullsWithoutDefaults);
 		// simstore keeps them. The only such null the syncers produce is a top-level
 		// spec field (compositionRevisionRef), and nothing reads it back within the
 		// same Sync, so pruning after the Sync is equivalent.
-		st.Mutate(c07ClaimGVK.GroupKind(), c07NS, pr.name, c07DropNullSpec)
+		st.Mutate(c07ClaimGVK.GroupKind(), pr.ns, pr.name, c07DropNullSpec)
 		if n := c07XRNameOf(peekClaim()); n != "" {
 			st.Mutate(c07XRGVK.GroupKind(), "", n, c07DropNullSpec)
 		}
 		post := peekClaim()
-		step := c07Step{Err: c07ErrClass(err), Writes: writes, Claim: post, XR: peekXR(c07XRNameOf(post))}
+		step := c07Step{Err: c07ErrClass(err), Calls: w.k, Writes: writes, Claim: post, XR: peekXR(c07XRNameOf(post))}
 		pr.steps = append(pr.steps, step)
-		mons = append(mons, c07Monitor(s, op, pre, step)...)
+		quiet := w.quiet() && !view.Stale
+		mons = append(mons, c07Monitor(op, c07Pre{NS: pr.ns, Claim: view.Claim, XR: view.XR}, pre, step, quiet)...)
+		mons = append(mons, c07WorldMon(op, view, w, err)...)
 		// a sync touches its own claim and XR only, and never the key tables
-		if now := p.snapshotOthers(pr.name, c07XRNameOf(post)); now != others {
+		if now := p.snapshotOthers(pr.ns, pr.name, c07XRNameOf(pre.Claim), op.Gen); now != others {
 			mons = append(mons, Mon{Sig: "C07:sync-changed-other-claim", Why: op.Syncer + ": syncing claim " + pr.name + " changed another claim or XR: " + others + " -> " + now})
 		}
 		if now := c07KeyTables(); now != tables {
@@ -605,20 +650,38 @@ func (p *c07Proc) runOp(s c07Scn, pr *c07Pair, info *c07Info) []Mon {
 	return mons
 }
 
-// snapshotOthers renders every stored claim and XR except the named ones.
-func (p *c07Proc) snapshotOthers(claimName, xrName string) string {
-	var out []c07Obj
+// snapshotOthers renders every stored claim and XR except the pair's own claim, the XR
+// it referenced before the sync, the XR the sync is about to create (a third party may
+// create it first) and the XR the claim references now.
+func (p *c07Proc) snapshotOthers(ns, claimName string, xrNames ...string) string {
+	own := map[string]bool{}
+	for _, n := range xrNames {
+		own[n] = true
+	}
+	if u := p.st.Peek(c07ClaimGVK.GroupKind(), ns, claimName); u != nil {
+		own[c07XRNameOf(c07Proj(u.Object))] = true
+	}
+	type named struct {
+		NS string
+		O  c07Obj
+	}
+	var out []named
 	for _, u := range p.st.OfKind(c07ClaimGVK.GroupKind()) {
-		if u.GetName() != claimName {
-			out = append(out, c07Proj(u.Object))
+		if u.GetName() != claimName || u.GetNamespace() != ns {
+			out = append(out, named{u.GetNamespace(), c07Proj(u.Object)})
 		}
 	}
 	for _, u := range p.st.OfKind(c07XRGVK.GroupKind()) {
-		if u.GetName() != xrName {
-			out = append(out, c07Proj(u.Object))
+		if !own[u.GetName()] {
+			out = append(out, named{"", c07Proj(u.Object)})
 		}
 	}
-	sort.Slice(out, func(i, j int) bool { return out[i].Name < out[j].Name })
+	sort.Slice(out, func(i, j int) bool {
+		if out[i].O.Name != out[j].O.Name {
+			return out[i].O.Name < out[j].O.Name
+		}
+		return out[i].NS < out[j].NS
+	})
 	return mustJSON(out)
 }
 
@@ -627,7 +690,12 @@ func (p *c07Proc) snapshotOthers(claimName, xrName string) string {
 // c07Cls: the evidence histogram keeps the 40 largest classes, so only single-pair
 // random scenarios carry the full branch detail (syncer mode / start / policy).
 func c07Cls(s c07Scn, pruned bool, info c07Info) string {
+	world := c07WorldCls(info)
 	if len(s.Peers) == 0 {
+		if world != "" {
+			// which syncer(s) + which dimensions of the world were exercised (measured on the run)
+			return "world/" + strings.SplitN(c07ClsMain(s, pruned), "/", 2)[0] + "/" + world
+		}
 		return c07ClsMain(s, pruned)
 	}
 	base := "multi/peers=1"
@@ -637,7 +705,31 @@ func c07Cls(s c07Scn, pruned bool, info c07Info) string {
 	if info.ManualThenOther {
 		base += "/manual-then-other"
 	}
+	if world != "" {
+		base += "/world"
+	}
 	return base
+}
+
+// c07WorldCls: "" for a quiet run, else the dimensions of the world that occurred:
+// acts (third-party writes), inj (failing calls), stale (cached reads that were not the
+// live objects). (The classes of NATURAL API errors - rv conflicts, AlreadyExists,
+// NotFound, BadRequest - the syncers ran into are reported for the world-enum stream.)
+func c07WorldCls(info c07Info) string {
+	var parts []string
+	if info.Acts {
+		parts = append(parts, "acts")
+	}
+	if info.Inj {
+		parts = append(parts, "inj")
+	}
+	if info.Stale {
+		parts = append(parts, "stale")
+	}
+	if len(parts) == 0 {
+		return ""
+	}
+	return strings.Join(parts, "+")
 }
 
 func c07ClsMain(s c07Scn, pruned bool) string {
@@ -776,6 +868,13 @@ func init() {
 				}
 				c.Emit(s, obs, mons, cls)
 			})
+			c07WorldEnum(shard, func(s c07Scn, cls string) {
+				obs, mons, info := c07Run(s)
+				if len(info.Natural) > 0 {
+					cls += "/natural=" + strings.Join(c07SortedKeys(info.Natural), "+")
+				}
+				c.Emit(s, obs, mons, cls+"/"+s.Ops[len(s.Ops)-1].Syncer)
+			})
 		}
 		for i := 0; i < c.N; i++ {
 			s, pruned := g.Scenario(c.Rng, c.Tier)
@@ -834,16 +933,16 @@ func c07Normalize(s c07Scn) c07Scn {
 // c07NamesDistinct: the pairs of a scenario live in one store, so their claims and
 // pre-existing XRs must be different objects.
 func c07NamesDistinct(s c07Scn) bool {
-	cl := map[string]bool{s.Claim.Name: true}
+	cl := map[string]bool{c07NSOf(s.NS) + "/" + s.Claim.Name: true}
 	xr := map[string]bool{}
 	if s.XR != nil {
 		xr[s.XR.Name] = true
 	}
 	for _, pe := range s.Peers {
-		if cl[pe.Claim.Name] || pe.Claim.Name == "" {
+		if cl[c07NSOf(pe.NS)+"/"+pe.Claim.Name] || pe.Claim.Name == "" {
 			return false
 		}
-		cl[pe.Claim.Name] = true
+		cl[c07NSOf(pe.NS)+"/"+pe.Claim.Name] = true
 		if pe.XR != nil {
 			if xr[pe.XR.Name] {
 				return false
